@@ -111,12 +111,12 @@ func genGraph(r *core.Rand, race bool) *graphCase {
 	for i := 0; i < nm; i++ {
 		names = append(names, owsimDestModels[perm[i]])
 	}
-	if r.Bool(0.3) {
+	if r.Bool(0.3) && !long { // (a Storage node sub-steps thousands of times per timestep: not in simulation-length graphs)
 		names[0] = []string{"Storage", "RatingCurvePartition"}[r.Intn(2)] // table-parameter model, used as a source only
 	}
 	// model types whose name is a prefix of another type's name, and a selection that names only the longer one
 	clash := ""
-	if r.Bool(0.2) {
+	if r.Bool(0.2) && !long {
 		pair := [][2]string{{"Storage", "StorageRouting"}, {"DynamicSednetGully", "DynamicSednetGullyAlt"}, {"Storage", "StorageDissolvedDecay"}}[r.Intn(3)]
 		names[0], names[1] = pair[0], pair[1]
 		for i := 2; i < len(names); i++ {
@@ -346,31 +346,45 @@ type refResult struct {
 	inputs [][][]float64 // final inputs [node][input][t]
 }
 
-// referenceRun: the sequential reference semantics of the property.
-func referenceRun(gc *graphCase) (map[string]*refResult, error) {
+// refTerm: one contribution to a node's input: the output series SrcVar of a source node.
+type refTerm struct {
+	model, node, v int
+}
+
+// inKey identifies one input of one node: (model index, node row, input variable).
+type inKey [3]int
+
+// linkTerms lists, per destination input, the linked source series in /LINKS order (the order in which ow-sim adds them
+// today). Term 0 of every sum is the stored input series (zero if none).
+func linkTerms(gc *graphCase) map[inKey][]refTerm {
+	t := map[inKey][]refTerm{}
+	for _, l := range gc.Links {
+		src, dst := &gc.Models[l.SrcModel], &gc.Models[l.DestModel]
+		k := inKey{l.DestModel, dst.offset(l.DestGen) + l.DestIdx, l.DestVar}
+		t[k] = append(t[k], refTerm{l.SrcModel, src.offset(l.SrcGen) + l.SrcIdx, l.SrcVar})
+	}
+	return t
+}
+
+// referenceRun: the sequential reference semantics of the property. orders optionally gives, for an input, the order in
+// which its terms (0 = stored series, i = i-th link) are added; the default is 0,1,2,... (the /LINKS order).
+func referenceRun(gc *graphCase, orders map[inKey][]int) (map[string]*refResult, error) {
 	res := map[string]*refResult{}
 	for i := range gc.Models {
 		m := &gc.Models[i]
 		total := m.Batches[gc.G-1]
-		rr := &refResult{out: make([][][]float64, total), states: make([][]float64, total), inputs: make([][][]float64, total)}
-		for k := 0; k < total; k++ {
-			if m.HasInputs {
-				rr.inputs[k] = clone2(m.Inputs[k])
-			} else {
-				rr.inputs[k] = make([][]float64, m.nIn)
-				for j := range rr.inputs[k] {
-					rr.inputs[k][j] = make([]float64, gc.T)
-				}
-			}
-		}
-		res[m.Name] = rr
+		res[m.Name] = &refResult{out: make([][][]float64, total), states: make([][]float64, total), inputs: make([][][]float64, total)}
 	}
-	li := 0
+	terms := linkTerms(gc)
 	for g := 0; g < gc.G; g++ {
 		for i := range gc.Models {
 			m := &gc.Models[i]
 			rr := res[m.Name]
 			for k := m.offset(g); k < m.offset(g)+m.count(g); k++ {
+				rr.inputs[k] = make([][]float64, m.nIn)
+				for j := 0; j < m.nIn; j++ {
+					rr.inputs[k][j] = sumTerms(gc, res, i, k, j, terms[inKey{i, k, j}], orders[inKey{i, k, j}], gc.T)
+				}
 				run := &MRun{Model: m.Name, N: 1, T: gc.T, Sets: []PSet{m.Sets[k]}, Inputs: [][][]float64{rr.inputs[k]}, States: [][]float64{append([]float64{}, m.States[k]...)}}
 				o, err := Execute(run)
 				if err != nil {
@@ -380,18 +394,207 @@ func referenceRun(gc *graphCase) (map[string]*refResult, error) {
 				rr.states[k] = o.States[0]
 			}
 		}
-		for li < len(gc.Links) && gc.Links[li].SrcGen <= g {
-			l := gc.Links[li]
-			src, dst := &gc.Models[l.SrcModel], &gc.Models[l.DestModel]
-			sv := res[src.Name].out[src.offset(l.SrcGen)+l.SrcIdx][l.SrcVar]
-			dv := res[dst.Name].inputs[dst.offset(l.DestGen)+l.DestIdx][l.DestVar]
-			for t := range dv {
-				dv[t] += sv[t]
-			}
-			li++
-		}
 	}
 	return res, nil
+}
+
+// sumTerms adds the stored series and the linked series of one input in the given order, over the first T steps.
+func sumTerms(gc *graphCase, res map[string]*refResult, mi, node, v int, terms []refTerm, order []int, T int) []float64 {
+	m := &gc.Models[mi]
+	series := func(ti int) []float64 {
+		if ti == 0 {
+			if m.HasInputs {
+				return m.Inputs[node][v]
+			}
+			return nil
+		}
+		t := terms[ti-1]
+		return res[gc.Models[t.model].Name].out[t.node][t.v]
+	}
+	sum := make([]float64, T)
+	first := true
+	add := func(ti int) {
+		s := series(ti)
+		if s == nil {
+			return
+		}
+		if first { // the stored series is the start value, not an addend: 0+x would turn -0 into +0
+			copy(sum, s[:T])
+			first = false
+			return
+		}
+		for t := 0; t < T; t++ {
+			sum[t] += s[t]
+		}
+	}
+	if order == nil {
+		if !m.HasInputs {
+			first = false // ow-sim starts from a zero-initialised block
+		}
+		for ti := 0; ti <= len(terms); ti++ {
+			add(ti)
+		}
+		return sum
+	}
+	if !m.HasInputs {
+		first = false
+	}
+	for _, ti := range order {
+		add(ti)
+	}
+	return sum
+}
+
+// fitSumOrders: floating-point addition of three or more series depends on the order, and the property does not fix one.
+// For every input with at least three non-zero terms whose observed values (the node's row of the inputs dataset, else of
+// the outputs dataset) differ from the /LINKS-order sum, look for ONE order of the terms - the same for every timestep -
+// that reproduces the observation bit for bit. Returns the orders found and whether some order-sensitive input could not
+// be observed (its model's inputs and outputs are both not written).
+func fitSumOrders(gc *graphCase, observe func(mi int, what string) ([]float64, []int)) (map[inKey][]int, bool, int) {
+	orders := map[inKey][]int{}
+	unobservable := false
+	found := 0
+	terms := linkTerms(gc)
+	sensitive := map[inKey]bool{}
+	for k, ts := range terms {
+		n := len(ts)
+		if gc.Models[k[0]].HasInputs {
+			n++
+		}
+		if n >= 3 {
+			sensitive[k] = true
+		}
+	}
+	if len(sensitive) == 0 {
+		return orders, false, 0
+	}
+	for g := 0; g < gc.G; g++ {
+		for mi := range gc.Models {
+			m := &gc.Models[mi]
+			for node := m.offset(g); node < m.offset(g)+m.count(g); node++ {
+				var keys []inKey
+				for j := 0; j < m.nIn; j++ {
+					if sensitive[inKey{mi, node, j}] {
+						keys = append(keys, inKey{mi, node, j})
+					}
+				}
+				if len(keys) == 0 {
+					continue
+				}
+				res, err := referenceRun(gc, orders)
+				if err != nil {
+					return orders, unobservable, found
+				}
+				obsIn, inDims := observe(mi, "inputs")
+				obsOut, outDims := observe(mi, "outputs")
+				switch {
+				case obsIn != nil && len(inDims) == 3 && inDims[2] == gc.T:
+					for _, k := range keys {
+						row := obsIn[(node*m.nIn+k[2])*gc.T : (node*m.nIn+k[2]+1)*gc.T]
+						if core.SameSlice(row, res[m.Name].inputs[node][k[2]]) < 0 {
+							continue
+						}
+						first := 1
+						if m.HasInputs {
+							first = 0
+						}
+						if !forEachOrder(first, len(terms[k])+1, func(order []int) bool {
+							if core.SameSlice(row, sumTerms(gc, res, mi, node, k[2], terms[k], order, gc.T)) < 0 {
+								orders[k] = append([]int{}, order...)
+								found++
+								return true
+							}
+							return false
+						}) {
+							unobservable = true // too many summands to enumerate their orders
+						}
+					}
+				case obsOut != nil && len(outDims) == 3 && outDims[2] == gc.T:
+					row := obsOut[node*m.nOut*gc.T : (node+1)*m.nOut*gc.T]
+					// the final states see last-bit differences of the inputs that the outputs may round away
+					var stRow []float64
+					if obsSt, stDims := observe(mi, "states"); obsSt != nil && len(stDims) == 2 && stDims[0] > node {
+						stRow = obsSt[node*stDims[1] : (node+1)*stDims[1]]
+					}
+					if core.SameSlice(row, flatten2(res[m.Name].out[node])) < 0 && (stRow == nil || core.SameSlice(stRow, res[m.Name].states[node]) < 0) {
+						continue
+					}
+					if len(keys) > 1 {
+						unobservable = true // several reordered inputs of one node seen only through its outputs: not searched
+						continue
+					}
+					k := keys[0]
+					Ts := minInt(gc.T, 64)
+					first := 1
+					if m.HasInputs {
+						first = 0
+					}
+					if !forEachOrder(first, len(terms[k])+1, func(order []int) bool {
+						try := func(T int) bool {
+							in := make([][]float64, m.nIn)
+							for j := range in {
+								in[j] = res[m.Name].inputs[node][j][:T]
+							}
+							in[k[2]] = sumTerms(gc, res, mi, node, k[2], terms[k], order, T)
+							o, err := Execute(&MRun{Model: m.Name, N: 1, T: T, Sets: []PSet{m.Sets[node]}, Inputs: [][][]float64{in}, States: [][]float64{append([]float64{}, m.States[node]...)}})
+							if err != nil {
+								return false
+							}
+							for v := 0; v < m.nOut; v++ {
+								if core.SameSlice(row[v*gc.T:v*gc.T+T], o.Out[0][v]) >= 0 {
+									return false
+								}
+							}
+							if T == gc.T && stRow != nil && core.SameSlice(stRow, o.States[0]) >= 0 {
+								return false
+							}
+							return true
+						}
+						if try(Ts) && try(gc.T) {
+							orders[k] = append([]int{}, order...)
+							found++
+							return true
+						}
+						return false
+					}) {
+						unobservable = true
+					}
+				default:
+					unobservable = true
+				}
+			}
+		}
+	}
+	return orders, unobservable, found
+}
+
+// forEachOrder calls f with every permutation of the term indices first..n-1 (at most 5040 of them) until f returns
+// true; it reports false when there are too many terms to enumerate.
+func forEachOrder(first, n int, f func([]int) bool) bool {
+	if n-first > 7 {
+		return false
+	}
+	p := make([]int, 0, n)
+	for i := first; i < n; i++ {
+		p = append(p, i)
+	}
+	n = len(p)
+	var rec func(k int) bool
+	rec = func(k int) bool {
+		if k == n {
+			return f(p)
+		}
+		for i := k; i < n; i++ {
+			p[k], p[i] = p[i], p[k]
+			if rec(k + 1) {
+				return true
+			}
+			p[k], p[i] = p[i], p[k]
+		}
+		return false
+	}
+	rec(0)
+	return true
 }
 
 func inList(list, name string) bool {
@@ -463,7 +666,7 @@ func owsimCase(c *core.Ctx, race bool) {
 	if nodes == 0 {
 		c.Trivial()
 	}
-	ref, err := referenceRun(gc)
+	ref, err := referenceRun(gc, nil)
 	if err != nil {
 		c.Inconclusive("reference executor failed: " + err.Error())
 		return
@@ -557,6 +760,32 @@ func owsimCase(c *core.Ctx, race bool) {
 	outputsFor, noOutputsFor := flagValue(gc.Flags, "-outputs-for"), flagValue(gc.Flags, "-no-outputs-for")
 	inputsFor, noInputsFor := flagValue(gc.Flags, "-inputs-for"), flagValue(gc.Flags, "-no-inputs-for")
 	compared := 0
+	// the order in which three or more series are added into one input is not fixed by the property: accept any single
+	// order per input that reproduces what ow-sim wrote (schedule-independence of that order is C05's business)
+	destOf := func(m *gModel) string {
+		if f, ok := gc.Split[m.Name]; ok {
+			return filepath.Join(dir, f+".h5")
+		}
+		return outFile
+	}
+	orders, orderUnobservable, nFitted := fitSumOrders(gc, func(mi int, what string) ([]float64, []int) {
+		file := destOf(&gc.Models[mi])
+		if what == "states" && flagValue(gc.Flags, "-final-states") != "" {
+			file = finalFile
+		}
+		got, dims, err := rawDataset[float64](file, "/MODELS/"+gc.Models[mi].Name+"/"+what)
+		if err != nil {
+			return nil, nil
+		}
+		return got, dims
+	})
+	if nFitted > 0 {
+		c.Tag("sum-order:not-links-order")
+		c.Count("inputs_summed_in_another_order_than_links", float64(nFitted))
+		if r2, err := referenceRun(gc, orders); err == nil {
+			ref = r2
+		}
+	}
 	for i := range gc.Models {
 		m := &gc.Models[i]
 		total := m.Batches[gc.G-1]
@@ -599,6 +828,10 @@ func owsimCase(c *core.Ctx, race bool) {
 			}
 			if i := core.SameSlice(got, want); i >= 0 {
 				loc := unflatten(wantDims, i)
+				if orderUnobservable {
+					c.Inconclusive(fmt.Sprintf("/MODELS/%s/%s differs from the /LINKS-order reference, but the order in which three or more series were added into some input cannot be observed (that model's inputs and outputs are not written, several such inputs on one node, or more than seven summands)", m.Name, what))
+					return
+				}
 				c.Violate("dataset-values", "ow-sim", fmt.Sprintf("/MODELS/%s/%s%v = %v, the sequential reference gives %v (node row %d; generations end at rows %v)", m.Name, what, loc, got[i], want[i], loc[0], m.Batches), attrs...)
 			}
 			compared += len(want)
@@ -645,6 +878,63 @@ func owsimCase(c *core.Ctx, race bool) {
 	// ---------------- trace: writer protocol ordering
 	if !race {
 		checkOwsimTrace(c, gc, tracePath)
+	}
+	// ---------------- C05: a second execution under another schedule must write bit-identical files
+	if race && len(c.Res.Violations) == 0 {
+		args2 := make([]string, len(args))
+		for i, a := range args {
+			if a != inFile {
+				a = strings.ReplaceAll(a, ".h5", "-b.h5")
+			}
+			args2[i] = a
+		}
+		ctx2, cancel2 := context.WithTimeout(context.Background(), 120*time.Second)
+		defer cancel2()
+		cmd2 := exec.CommandContext(ctx2, bin, args2...)
+		procs := "1"
+		if c.R.Bool(0.5) {
+			procs = "3"
+		}
+		cmd2.Env = append(os.Environ(), "GOMAXPROCS="+procs, "GORACE=halt_on_error=1 exitcode=66",
+			fmt.Sprintf("OW_SIM_DELAYS=%d:%d", gc.DelaySeed+7, 2000), fmt.Sprintf("OW_SHIM_DELAYS=%d:%d", gc.DelaySeed+7, 200))
+		so2, _ := os.Create(filepath.Join(dir, "stdout2.log"))
+		se2, _ := os.Create(filepath.Join(dir, "stderr2.log"))
+		cmd2.Stdout, cmd2.Stderr = so2, se2
+		cmd2.Cancel = func() error { return cmd2.Process.Signal(syscall.SIGQUIT) }
+		cmd2.WaitDelay = 3 * time.Second
+		err2 := cmd2.Run()
+		so2.Close()
+		se2.Close()
+		c.Count("owsim_executions", 1)
+		if ctx2.Err() != nil {
+			c.Inconclusive("second ow-sim execution: watchdog expired")
+			return
+		}
+		if b, _ := os.ReadFile(filepath.Join(dir, "stderr2.log")); strings.Contains(string(b), "WARNING: DATA RACE") {
+			c.Violate("data-race", "ow-sim", headStr(string(b)[strings.Index(string(b), "WARNING: DATA RACE"):], 2500))
+			return
+		}
+		if err2 != nil {
+			c.Violate("owsim-failed", "ow-sim", fmt.Sprintf("second execution (GOMAXPROCS=%s) of %v failed: %v", procs, args2, err2))
+			return
+		}
+		files, _ := filepath.Glob(filepath.Join(dir, "*-b.h5"))
+		pairs := 0
+		for _, fb := range files {
+			fa := strings.TrimSuffix(fb, "-b.h5") + ".h5"
+			ta, ea := hdf5.LoadTree(fa)
+			tb, eb := hdf5.LoadTree(fb)
+			if ea != nil || eb != nil {
+				c.Violate("schedule-dependent-output", "ow-sim", fmt.Sprintf("%s / %s: one of the two executions did not leave a readable file (%v / %v)", filepath.Base(fa), filepath.Base(fb), ea, eb))
+				continue
+			}
+			if d := diffNodes("", ta.Root, tb.Root); d != "" {
+				c.Violate("schedule-dependent-output", "ow-sim", fmt.Sprintf("two executions of the same graph (default GOMAXPROCS vs GOMAXPROCS=%s, other delay seed) wrote different files %s: %s", procs, filepath.Base(fa), d))
+			}
+			pairs++
+		}
+		c.Count("output_files_compared_between_two_schedules", float64(pairs))
+		c.Tag("owsim:two-schedules-compared")
 	}
 	c.Class(fmt.Sprintf("G%d/M%d/L%d/%s/d%d", gc.G, len(gc.Models), minInt(len(gc.Links), 3), flagClass, gc.DelayMax))
 }
@@ -791,4 +1081,56 @@ func tailN(s string, n int) string {
 		return s[len(s)-n:]
 	}
 	return s
+}
+
+// diffNodes reports the first difference between two shim trees (structure, shapes, raw bytes).
+func diffNodes(path string, a, b *hdf5.Node) string {
+	if a.IsGroup != b.IsGroup {
+		return path + ": group in one file, dataset in the other"
+	}
+	if !a.IsGroup {
+		if fmt.Sprint(a.Dims) != fmt.Sprint(b.Dims) {
+			return fmt.Sprintf("%s: shapes %v vs %v", path, a.Dims, b.Dims)
+		}
+		if !bytes.Equal(a.Data, b.Data) {
+			for i := range a.Data {
+				if i >= len(b.Data) || a.Data[i] != b.Data[i] {
+					return fmt.Sprintf("%s: contents differ at element %d", path, i/maxInt(1, a.ElemSize))
+				}
+			}
+			return path + ": contents differ in length"
+		}
+		return ""
+	}
+	names := map[string][2]*hdf5.Node{}
+	for _, ch := range a.Children {
+		names[ch.Name] = [2]*hdf5.Node{ch, nil}
+	}
+	for _, ch := range b.Children {
+		p := names[ch.Name]
+		p[1] = ch
+		names[ch.Name] = p
+	}
+	keys := make([]string, 0, len(names))
+	for k := range names {
+		keys = append(keys, k)
+	}
+	sort.Strings(keys)
+	for _, k := range keys {
+		p := names[k]
+		if p[0] == nil || p[1] == nil {
+			return path + "/" + k + ": present in one file only"
+		}
+		if d := diffNodes(path+"/"+k, p[0], p[1]); d != "" {
+			return d
+		}
+	}
+	return ""
+}
+
+func maxInt(a, b int) int {
+	if a > b {
+		return a
+	}
+	return b
 }
